@@ -131,6 +131,8 @@ func (s *State) ParseConfig(data []byte, fName string) (
 
 func checkRaw(c *NsxConfig) error {
 	re := regexp.MustCompile(`^r\d`)
+	// Names of rules and groups from IPv6.
+	re6 := regexp.MustCompile(`^v6r\d`)
 	for _, p := range c.Policies {
 		if !strings.HasPrefix(p.Id, "Netspoc") {
 			return fmt.Errorf(
@@ -143,9 +145,15 @@ func checkRaw(c *NsxConfig) error {
 					"Must not use rule name starting with 'r<NUM>': %s",
 					r.Id)
 			}
+			if re6.MatchString(r.Id) {
+				return fmt.Errorf(
+					"Must not use rule name starting with 'v6r<NUM>': %s",
+					r.Id)
+			}
 		}
 	}
 	re = regexp.MustCompile(`^Netspoc-g\d`)
+	re6 = regexp.MustCompile(`^Netspoc-v6g\d`)
 	for _, g := range c.Groups {
 		if !strings.HasPrefix(g.Id, "Netspoc") {
 			return fmt.Errorf(
@@ -155,6 +163,11 @@ func checkRaw(c *NsxConfig) error {
 		if re.MatchString(g.Id) {
 			return fmt.Errorf(
 				"Must not use group name starting with 'Netspoc-g<NUM>': %s",
+				g.Id)
+		}
+		if re6.MatchString(g.Id) {
+			return fmt.Errorf(
+				"Must not use group name starting with 'Netspoc-v6g<NUM>': %s",
 				g.Id)
 		}
 	}
